@@ -1,6 +1,7 @@
 from cfg.common import FLOAT_ASSUMPTION, NOTE_COMMON
 
 PROP = {
+    'anchors': [('train/set_speed_train_sim.rs', 'solve_step'), ('train/set_speed_train_sim.rs', 'solve_required_pwr'), ('train/set_speed_train_sim.rs', 'mean'), ('train/set_speed_train_sim.rs', 'dt')],
     'blocks': ['train'],
     'proof_modules': ['C14'],
     'namespaces': ['Altrios.Proofs.C14'],
